@@ -7,6 +7,14 @@ ROOT = os.path.dirname(os.path.dirname(os.path.abspath(__file__)))
 ALL = [f"C{i:02d}" for i in range(1, 21)]
 
 CLAIMED = {
+    "C07": dict(
+        text="z3 over the CURRENT source of build_list_mtime / parse_ls_date / format_date_time executed by an AST interpreter on civil-field integers (every mtime / server-now / client-now in 1971..2104, skew <= 1 h): "
+             "minute precision inside the half year, day precision otherwise, form chosen exactly by age, only ValueError; format model validated exhaustively against the real library, repository vectors through both, "
+             "witnesses replayed on the real functions. CrossHair for the MLSx / LIST field round trip with a symbolic size and for MLSD/LIST/MLST completeness through the real dispatcher.",
+        note="Trusted: z3, pysym and its date models (fixed-offset zone shared by both sides), CrossHair. Outside: DST/zone changes, years outside 1971..2104, non-C locales, the exempted boundary day.",
+        technique="AST-to-SMT symbolic execution of the real source (pysym + z3) for the date plane; CrossHair for fields and completeness",
+        design_ref="DESIGN.md section 3 C07",
+    ),
     "C15": dict(
         text="z3 over the CURRENT source of Throttle / ThrottleStreamIO executed by an AST interpreter (reals; symbolic chunk sizes, I/O durations, gaps, oversleeps): cumulative bound at every I/O "
              "start for every level of a stack, shared limit over every interleaving of two streams, independence of clones, no delay when off, no unnecessary delay; vacuity guard, translator validation "
